@@ -27,7 +27,7 @@ func init() {
 	concSpec("C02", &ConcOpts{
 		Profile: Profile{Prop: "C02", NoExp: true, NoRef: true, Keys: [2]int{1, 6}},
 		OpW:     zeroExcept(kvOps), Tasks: [2]int{2, 4}, OpsPer: [2]int{3, 14}, Prefill: [2]int{0, 8},
-		Executors: []string{"default", "sync", "queued"}, Lin: true, Resize: true,
+		Executors: []string{"default", "sync", "queued"}, Lin: true, Resize: true, TinyP: 5,
 	})
 	// C04 / C05 / C06: bound, bookkeeping and event accounting at quiescence after CleanUp.
 	sizeOps := zeroExcept(map[string]int{"set": 20, "setifabsent": 5, "get": 8, "compute": 6, "computeifabsent": 3, "computeifpresent": 3,
@@ -35,13 +35,13 @@ func init() {
 	concSpec("C04", &ConcOpts{
 		Profile: Profile{Prop: "C04", NoRef: true, Keys: [2]int{3, 14}},
 		OpW:     sizeOps, Tasks: [2]int{2, 4}, OpsPer: [2]int{6, 30}, Prefill: [2]int{0, 10},
-		Executors:  []string{"default", "default", "sync", "queued"},
+		Executors: []string{"default", "default", "sync", "queued"}, TinyP: 5,
 		NonTrivial: func(o *ConcOutcome) bool { return o.Switches > 4 && o.Probes["bounded"] > 0 },
 	})
 	concSpec("C05", &ConcOpts{
 		Profile: Profile{Prop: "C05", NoRef: true, Keys: [2]int{3, 14}},
 		OpW:     sizeOps, Tasks: [2]int{2, 4}, OpsPer: [2]int{6, 30}, Prefill: [2]int{0, 10},
-		Executors:  []string{"default", "default", "sync", "queued"},
+		Executors: []string{"default", "default", "sync", "queued"}, TinyP: 5,
 		NonTrivial: func(o *ConcOutcome) bool { return o.Switches > 4 },
 	})
 	c6ops := map[string]int{}
@@ -61,7 +61,7 @@ func init() {
 	concSpec("C08", &ConcOpts{
 		Profile: Profile{Prop: "C08", Keys: [2]int{1, 4}},
 		OpW:     loadOps, Tasks: [2]int{2, 5}, OpsPer: [2]int{2, 12}, Prefill: [2]int{0, 3},
-		Executors: []string{"default", "sync", "queued"}, AllowStall: true,
+		Executors: []string{"default", "sync", "queued"}, AllowStall: true, TinyP: 5,
 		NonTrivial: func(o *ConcOutcome) bool { return o.Probes["loader-overlap-any"] > 0 || o.Probes["load-waiters"] > 0 },
 	})
 	// C09: load vs newer write on one or two keys.
@@ -79,7 +79,7 @@ func init() {
 	concSpec("C14", &ConcOpts{
 		Profile: Profile{Prop: "C14", NoRef: true, Keys: [2]int{3, 16}},
 		OpW:     c14, Tasks: [2]int{2, 5}, OpsPer: [2]int{5, 30}, Prefill: [2]int{0, 6},
-		Executors: []string{"default"}, NoCleanup: true,
+		Executors: []string{"default"}, NoCleanup: true, TinyP: 3, WakeDuel: true,
 		NonTrivial: func(o *ConcOutcome) bool { return o.Switches > 4 && o.Probes["maintenance-configured"] > 0 },
 	})
 }
